@@ -4,7 +4,7 @@
    the theorem that `Panic` is unreachable for ALL inputs (no well-formedness assumed unless
    stated). The sweep of this check runs every public entry point of the crate on the adversarial
    pool under catch_unwind with overflow checks and a watchdog. *)
-From Verif Require Import Reader Reader_proofs DecimalCodec DecimalCodec_proofs Span Tensor Tensor_proofs Builder Builder_proofs Conv_proofs.
+From Verif Require Import Reader Reader_proofs DecimalCodec DecimalCodec_proofs Span Tensor Tensor_proofs Builder Builder_proofs Conv_proofs FromType FromTypeDepth Constants ConstantsSpec.
 
 (* reading any view whatsoever, any index: errors, never a panic *)
 Theorem C16_read_total : forall a idx p, read a idx <> Panic p.
@@ -49,5 +49,16 @@ Example C16_offset_overflow_needs_2_31_elements :
   increment_last false [2147483647]%Z 1 = Panic POverflow /\ increment_last false [2147483646]%Z 1 = Ok [2147483647]%Z.
 Proof. vm_compute. split; reflexivity. Qed.
 
+(* schema tracing of very deep types stops with an error: a record with a field nested more than MAX_TYPE_DEPTH (= 20, regenerated
+   from the source) sequences deep is refused on the first pass, for every budget and every option set; the exploration loop is
+   structurally bounded by the budget (zero budget: nothing is explored) *)
+Theorem C16_deep_type_is_an_error : forall o ty name k budget,
+  max_type_depth < k -> from_type o [] budget (TyStruct [(name, nest k ty)]) = Err.
+Proof. intros o ty name k budget Hk. apply deep_type_is_an_error. rewrite (proj1 constants_match). exact Hk. Qed.
+
+Theorem C16_zero_budget : forall o ty, ft_loop o 0 ty (TUnknown false) = Err.
+Proof. exact zero_budget. Qed.
+
 Print Assumptions C16_read_total.
 Print Assumptions C16_duration_parse_total.
+Print Assumptions C16_deep_type_is_an_error.
